@@ -40,4 +40,5 @@ CONF = dict(
  'C17_ntimed_reset/_restart: outputs after a reset point are those of a new filter; C17_ntimed_oracle: the model meets the whole Ntimed oracle on all histories.'),
     timeout_quick=600,
     timeout_thorough=3000,
+    min_cases={'lucky.hist': 361, 'lucky.new': 9, 'ntimed.hist': 360},
 )
